@@ -251,6 +251,9 @@ def gen_plan(sc, seed):
         if i % 7 == 3:
             d = 1 << (i % dw)                 # walking data bits
         plan.append((gap, we, a, d, mask, rnd.getrandbits(1)))
+    if sc.get("user_dw") and plan:
+        # behind an up-converter a command without the end-of-burst hint waits for a successor; the last one must carry the hint
+        plan[-1] = plan[-1][:5] + (1,)
     return plan
 
 
